@@ -452,6 +452,36 @@ theorem inv_step {O : Ords} (hrel : O.decRel = true) (hacq : O.decAcq = true) {s
             subst hs
             exact inv_locked h (htf h1) t n sl false false true true hn h1 hb (by simp) (by simp) (fun _ => Or.inl rfl)
           · cases hs
+    | dataRd sl =>
+      simp only at hs
+      cases hb : s.slots[sl]? with
+      | none => simp [hb] at hs
+      | some b =>
+        cases b with
+        | true => simp [hb] at hs
+        | false =>
+          simp only [hb] at hs
+          split at hs
+          · rename_i h1
+            simp only [Option.some.injEq] at hs
+            subst hs
+            exact inv_locked h (htf h1) t n sl false false false false hn h1 hb (by simp) (by simp) (by simp)
+          · cases hs
+    | dataWr sl =>
+      simp only at hs
+      cases hb : s.slots[sl]? with
+      | none => simp [hb] at hs
+      | some b =>
+        cases b with
+        | true => simp [hb] at hs
+        | false =>
+          simp only [hb] at hs
+          split at hs
+          · rename_i h1
+            simp only [Option.some.injEq] at hs
+            subst hs
+            exact inv_locked h (htf h1) t n sl true false false false hn h1 hb (fun _ => rfl) (by simp) (by simp)
+          · cases hs
     | useElem sl =>
       simp only at hs
       split at hs
